@@ -179,6 +179,41 @@ def _thermal_cases(args):
     return out
 
 
+def _thermal_exact_cases(args):
+    """ThermalProp(exact=True): closed-form propagation with the local Hamiltonian, over schedules of SEVERAL evolve()
+    calls with different step sizes (the result must depend on the total imaginary time only)."""
+    bootstrap()
+    from renormalizer.mps import MpDm, ThermalProp
+    from .. import concretize as cz
+    seed, k = args
+    out = {"cases": [], "viol": [], "meas": []}
+    rng = rng_for(seed, "c10thermal-exact", k)
+    model, mols = _holstein(rng, 2, 1 + k % 2, [2, 4][k % 2])
+    for space in ("GS", "EX"):
+        Hl = _local_generator(model, mols, space)
+        for sched in ([(2, 0.6)], [(1, 0.2), (2, 0.5)], [(3, 0.3), (1, 0.4)], [(1, 0.5), (1, 0.1), (1, 0.3)]):
+            detail = {"space": space, "schedule": sched, "holstein_scheme": model.scheme, "k": k}
+            out["cases"].append(json.dumps(detail))
+            try:
+                init = MpDm.max_entangled_gs(model) if space == "GS" else MpDm.max_entangled_ex(model)
+                rho0 = cz.mps_dense(init)
+                tp = ThermalProp(init, exact=True, space=space)
+                total = 0.0
+                for nsteps, tau in sched:
+                    tp.evolve(nsteps=nsteps, evolve_time=tau / 1j)
+                    total += tau
+                    got = cz.mps_dense(tp.latest_mps)
+                    ref = expm(-total * Hl) @ rho0
+                    d = np.linalg.norm(got / np.linalg.norm(got) - ref / np.linalg.norm(ref))
+                    out["meas"].append({"method": "exact", "space": space, "err": float(d)})
+                    if d > 1e-9:
+                        out["viol"].append((f"C10:thermal-exact:{space}:{'one-call' if len(sched) == 1 else 'mixed-steps'}", f"after total imaginary time {total} the state differs from exp(-tau H_local) rho0 by {d:.2e}", detail))
+                        break
+            except Exception as e:
+                out["viol"].append((f"C10:thermal-exact:raises:{space}:{type(e).__name__}", f"{type(e).__name__}: {e}", detail))
+    return out
+
+
 def _tdjob_cases(cases):
     bootstrap()
     from renormalizer.utils.tdmps import TdMpsJob
@@ -251,6 +286,7 @@ def run(ctx):
         ctx.violation(key, what, detail)
     res = pmap(_exact_cases, [(ctx.seed, k) for k in range(4 if tier == "quick" else 16)], chunksize=1)
     res += pmap(_thermal_cases, [(ctx.seed, k, tier) for k in range(4 if tier == "quick" else 12)], chunksize=1)
+    res += pmap(_thermal_exact_cases, [(ctx.seed, k) for k in range(2 if tier == "quick" else 8)], chunksize=1)
     meas = []
     for st_, o in res:
         if st_ != "ok":
